@@ -111,6 +111,13 @@ CLAIMS["C07"] = ("composition of decided clauses: regular-language inclusion for
     "read loops cannot spin on a zero-byte read. General panic-freedom and decoder-crate robustness are NOT decided.",
     "DESIGN.md §3 C07")
 
+CLAIMS["C11"] = ("CFG dominance and decision paths in process_stage2_find_dt / blockzero_analysis_syslines, per-container provenance table of BlockReader::mtime, def-use analysis of the assumed-year variable and loop-exit must-pass analysis in process_missing_year",
+    "Static necessary-condition check of year inference: runs exactly for year-less patterns before streaming, seeded by the reader's mtime "
+    "(time stored inside .gz/.tar, else filesystem); streamed year-less files disable block dropping; the assumed year starts at mtime's year "
+    "in the --tz-offset zone, is only stepped back by one under the forward-jump guards, and the rollover test lies on every way out of the "
+    "backward walk after a message was read. Does not decide the dates inferred for concrete logs.",
+    "DESIGN.md §3 C11")
+
 NA_REASON = {}
 
 checks = []
